@@ -22,8 +22,8 @@ RULES = {
              "may_load_at_height(MEMBERS, addr, h) with the caller's h (shared with C09 R09.3) - the flex multisig's ballot weights are "
              "exactly these answers",
     "R06.8": "the total a group-backed proposal is measured against is the sum of the voters' weights of the same snapshot: both "
-             "group contracts keep TOTAL = sum of MEMBERS on every membership write, at the height of the write (shared with "
-             "C09 R09.1 / R09.2)",
+             "group contracts keep TOTAL = sum of MEMBERS on every membership write, at the height of the write, and the cw4 helper "
+             "the multisig calls (Cw4Contract::total_weight / is_member) reads exactly those cells (shared with C09 R09.1 / R09.2 / R09.5)",
     "R06.6": "frozen membership (fixed): nothing writes VOTERS or CONFIG outside instantiate",
 }
 
@@ -138,9 +138,11 @@ def run(ctx):
     it9 = C09.items(sub2)
     C09.check_group(sub2, it9)
     C09.check_stake(sub2, it9)
+    C09.check_keys(sub2, it9)       # Cw4Contract::total_weight / is_member read the very cells the groups maintain
     for k in sub2.order:
         o = sub2.obs[k]
-        if o.rule in ("R09.1", "R09.2") and not o.key.startswith(("anchor", "floor")):
+        if (o.rule in ("R09.1", "R09.2") or (o.rule == "R09.5" and o.key.startswith("Cw4Contract::"))) \
+                and not o.key.startswith(("anchor", "floor")):
             ctx.ob("R06.8", o.key, True if o.status == "discharged" else (None if o.status == "undecided" else False),
                    detail="; ".join(o.details), sites=o.sites, sample=o.sample, trivial=o.trivial)
     # R06.6
